@@ -19,6 +19,11 @@ the sites in `$VERIF_REPO/ariadne_codegen` with the `ast` module:
               yields/returns from one, is then treated like a set expression: its consumers are sites)
   ambient     hash(), id(), random.*, uuid.*, time.*, datetime.now/utcnow/today, os.getpid, os.urandom
   formatter   isort.code(...), format_str(...), fix_code(...): the exact call, arguments included
+  state:module / state:class   a mutable container (dict/list/set literal, comprehension or constructor call) bound
+              at module / class level: lives as long as the interpreter, i.e. across generations (key: NAME = kind)
+  state:cache   @lru_cache / @cache / @functools.* decorated function (key: decorator + function name)
+  state:mutate  a module-level container (by name, any file) mutated: .setdefault/.update/.append/.../ x[k] = v / del
+  state:global  `global NAME` statement
 
 A *set expression* is recognised by a conservative type inference by NAME: names/attributes annotated with
 something containing Set[...]/set[...]/set, assigned from a set expression, tuple-unpacked from a function
@@ -378,6 +383,89 @@ class FileScan:
         return self.sites
 
 
+CONTAINER_CALLS = {"dict", "list", "set", "defaultdict", "OrderedDict", "Counter", "deque", "WeakValueDictionary",
+                   "WeakKeyDictionary", "ChainMap"}
+MUTATORS = {"setdefault", "update", "append", "extend", "add", "pop", "popitem", "clear", "insert", "remove", "discard",
+            "appendleft", "extendleft", "sort", "reverse", "__setitem__", "__delitem__"}
+CACHE_DECOS = re.compile(r"(^|\.)(lru_cache|cache|cached|memoize|singledispatch)\b")
+
+
+def _container_kind(v):
+    if isinstance(v, (ast.Dict, ast.DictComp)):
+        return "dict"
+    if isinstance(v, (ast.List, ast.ListComp)):
+        return "list"
+    if isinstance(v, (ast.Set, ast.SetComp)):
+        return "set"
+    if isinstance(v, ast.Call):
+        f = v.func
+        n = f.id if isinstance(f, ast.Name) else (f.attr if isinstance(f, ast.Attribute) else None)
+        if n in CONTAINER_CALLS:
+            return n
+        txt = ast.unparse(f)
+        if txt.startswith("ast.") or txt.startswith("generate_"):
+            return "ast"      # a shared AST node (e.g. UNSET_IMPORT): mutable, handed to every generation
+    return None
+
+
+def state_sites(rel: str, tree: ast.Module, module_containers: set[str]) -> list[tuple]:
+    """interpreter-lifetime state: where it is created, cached and mutated"""
+    out = []
+
+    def bindings(body, ctx, owner):
+        for st in body:
+            tgt, val = None, None
+            if isinstance(st, ast.Assign) and len(st.targets) == 1:
+                tgt, val = st.targets[0], st.value
+            elif isinstance(st, ast.AnnAssign):
+                tgt, val = st.target, st.value
+            if isinstance(tgt, ast.Name) and val is not None:
+                kind = _container_kind(val)
+                if kind and not (tgt.id.startswith("__") and tgt.id.endswith("__")):
+                    out.append((rel, owner, ctx, f"{tgt.id} = {kind}", st.lineno))
+            if isinstance(st, ast.ClassDef):
+                bindings(st.body, "state:class", (owner + "." if owner != "<module>" else "") + st.name)
+
+    bindings(tree.body, "state:module", "<module>")
+    parent = {}
+    for p_ in ast.walk(tree):
+        for c in ast.iter_child_nodes(p_):
+            parent[c] = p_
+
+    def qual(n):
+        parts = []
+        p_ = parent.get(n)
+        while p_ is not None:
+            if isinstance(p_, (ast.FunctionDef, ast.AsyncFunctionDef, ast.ClassDef)):
+                parts.append(p_.name)
+            p_ = parent.get(p_)
+        return ".".join(reversed(parts)) or "<module>"
+
+    for n in ast.walk(tree):
+        if isinstance(n, (ast.FunctionDef, ast.AsyncFunctionDef)):
+            for d in n.decorator_list:
+                txt = ast.unparse(d)
+                if CACHE_DECOS.search(txt.split("(")[0]):
+                    out.append((rel, qual(n), "state:cache", f"@{txt} {n.name}", n.lineno))
+        if isinstance(n, ast.Global):
+            out.append((rel, qual(n), "state:global", "global " + ", ".join(n.names), n.lineno))
+        if isinstance(n, ast.Call) and isinstance(n.func, ast.Attribute) and n.func.attr in MUTATORS:
+            base = n.func.value
+            if isinstance(base, ast.Name) and base.id in module_containers:
+                out.append((rel, qual(n), "state:mutate", f"{base.id}.{n.func.attr}(...)", n.lineno))
+            if (isinstance(base, ast.Attribute) and isinstance(base.value, ast.Name) and base.value.id in ("cls",)
+                    ) or (isinstance(base, ast.Attribute) and isinstance(base.value, ast.Call)
+                          and ast.unparse(base.value) in ("type(self)", "self.__class__")):
+                out.append((rel, qual(n), "state:mutate", f"{ast.unparse(base)}.{n.func.attr}(...)", n.lineno))
+        if isinstance(n, (ast.Assign, ast.AugAssign, ast.Delete)):
+            tgts = n.targets if isinstance(n, (ast.Assign, ast.Delete)) else [n.target]
+            for t in tgts:
+                if isinstance(t, ast.Subscript) and isinstance(t.value, ast.Name) and t.value.id in module_containers \
+                        and qual(n) != "<module>":
+                    out.append((rel, qual(n), "state:mutate", f"{t.value.id}[...] assigned/deleted", n.lineno))
+    return out
+
+
 def scan_repo(repo: str) -> list[tuple]:
     """All sites of <repo>/ariadne_codegen as (file, function, context, expression, line)."""
     base = os.path.join(repo, "ariadne_codegen")
@@ -395,6 +483,16 @@ def scan_repo(repo: str) -> list[tuple]:
     sites = []
     for rel in sorted(trees):
         sites.extend(FileScan(rel, trees[rel], g).scan())
+    module_containers = set()
+    for rel, tree in trees.items():
+        for st in tree.body:
+            tgt = st.targets[0] if isinstance(st, ast.Assign) and len(st.targets) == 1 else (
+                st.target if isinstance(st, ast.AnnAssign) else None)
+            val = getattr(st, "value", None)
+            if isinstance(tgt, ast.Name) and val is not None and _container_kind(val):
+                module_containers.add(tgt.id)
+    for rel in sorted(trees):
+        sites.extend(state_sites(rel, trees[rel], module_containers))
     return sites
 
 
